@@ -25,8 +25,8 @@ def run(ctx):
     dictops.r_dictops(ctx)      # the constant of the identity is read from prune(symmetrize(decomposition))
     nl = formula.r_class_lmi_symmetric(ctx)
     r_user_lmi(ctx)
-    ctx.floor("send/track pairs", n, 8)
-    ctx.floor("class LMI builders", nl, 5)
+    ctx.floor("send/track pairs", n, 5)
+    ctx.floor("class LMI builders", nl, 3)
 
 
 def r_user_lmi(ctx):
